@@ -246,9 +246,14 @@ func (s *Solver) getValues(vars []*Term) map[string]interface{} {
 		return map[string]interface{}{}
 	}
 	var sb strings.Builder
+	var defs strings.Builder
+	for _, v := range vars {
+		s.define(v, &defs)
+	}
+	sb.WriteString(defs.String())
 	sb.WriteString("(get-value (")
 	for _, v := range vars {
-		sb.WriteString(v.name)
+		sb.WriteString(refSMT(v))
 		sb.WriteByte(' ')
 	}
 	sb.WriteString("))\n")
@@ -263,16 +268,14 @@ func (s *Solver) getValues(vars []*Term) map[string]interface{} {
 		return nil
 	}
 	model := make(map[string]interface{})
-	bySort := make(map[string]Sort)
-	for _, v := range vars {
-		bySort[v.name] = v.sort
+	if len(ex.list) != len(vars) {
+		return model
 	}
-	for _, pair := range ex.list {
+	for i, pair := range ex.list {
 		if len(pair.list) != 2 {
 			continue
 		}
-		name := pair.list[0].atom
-		model[name] = decodeValue(pair.list[1], bySort[name])
+		model[refSMT(vars[i])] = decodeValue(pair.list[1], vars[i].sort)
 	}
 	return model
 }
